@@ -768,18 +768,15 @@ def _memoised(body):
 
     def wrapper(spec: dict):
         key = digest(spec)
-        if key in seen:
-            failed, payload = seen[key]
-            if failed:
-                raise Violation(*payload)
-            return payload
-        try:
-            result = body(spec)
-        except Violation as vio:
-            seen[key] = (True, (vio.clause, vio.detail))
-            raise
-        seen[key] = (False, result)
-        return result
+        if key not in seen:
+            try:
+                seen[key] = (False, body(spec))
+            except Violation as vio:
+                seen[key] = (True, (vio.clause, vio.detail))
+        failed, payload = seen[key]
+        if failed:
+            raise Violation(*payload)    # the only place a violation of this subcheck is raised from
+        return payload
     return wrapper
 
 
